@@ -14,3 +14,13 @@ H("c04_span_export_abi2", "C04", "seq", ["harness/c04_span_export.cc"], sdk=["co
        "obtained with instrumentation-scope attributes (and a sibling tracer that differs only in them); links must be exported in call order after the start "
        "links with their own attributes as owned copies, scope attributes as given",
   design_ref="5/C04")
+
+# "what each configured processor's exporter receives ... exactly once" on the REAL BatchSpanProcessor (the sequential harness
+# uses a deferred stand-in so that what is exported is deterministic): the batch harness of C01 under the scheduler, span
+# processor only, its exactly-once / nothing-lost / per-producer-order predicates reported as C04:batch:*
+H("batch_c04", "C04", "sched", ["harness/batch_harness.cc"], sdk=["common", "version", "resource", "trace", "logs"],
+  args={"quick": ["--oracle=C01", "--as=C04", "--kind=0", "--set=light", "--k=2", "--budget=40"],
+        "thorough": ["--oracle=C01", "--as=C04", "--kind=0", "--set=light", "--k=2", "--t=0", "--c=0", "--budget=200"]},
+  what="real BatchSpanProcessor under the scheduler (the C01 batch harness, span processor only): every ended span reaches the exporter exactly once, "
+       "none is lost while the queue has room, per-producer order; reported as C04:batch:*",
+  design_ref="5/C04, 12.8")
